@@ -48,6 +48,8 @@ TMutate ==
 
 TPop == IsEvent("pop") /\ Pop(Ev.m) /\ ObsNames /\ Step
 
+TDrop == IsEvent("drop") /\ DropModel(Ev.m) /\ ObsNames /\ Step
+
 TCopy ==
   /\ IsEvent("copy")
   /\ CopyModel(Ev.m)
@@ -62,9 +64,10 @@ TCopy ==
 
 TAssign ==
   /\ IsEvent("assign")
+  /\ Chk("assignment_in_a_built_model_is_accepted", Ev.crash = "")
   /\ AssignIn(Ev.m, 1, ToString(Ev.x))
   /\ Chk("assignment_does_not_change_other_models", Ev.others_unchanged)
   /\ Step
 
-TNext == TAdd \/ TAddAgain \/ TBuild \/ TBuildEmpty \/ TMutate \/ TPop \/ TCopy \/ TAssign
+TNext == TAdd \/ TAddAgain \/ TBuild \/ TBuildEmpty \/ TMutate \/ TPop \/ TDrop \/ TCopy \/ TAssign
 =============================================================================
